@@ -92,6 +92,8 @@ def build_main(argv):
             m = main(list(argv), f_err=err, return_mininec=True)
         except SystemExit as e:
             return None, 'usage:%s %s' % (e.code, err.getvalue()[-200:])
+        except Exception as e:       # uncaught exception while building: C20's business
+            return None, 'exc:%s %s' % (type(e).__name__, str(e)[:100])
     if m is None or isinstance(m, int):
         return None, 'ret %s: %s' % (m, (out.getvalue() + err.getvalue()).strip()[:300])
     return m, ''
